@@ -12,6 +12,7 @@
 """Inventory handlers for Placement API."""
 
 import copy
+import math
 import operator
 
 from oslo_db import exception as db_exc
@@ -82,6 +83,11 @@ def make_inventory_object(resource_provider, resource_class, **data):
     # 0) for non-negative integers. It's not clear if that is
     # duplication or decoupling so leaving it as this for now.
     try:
+        # The JSON parser accepts NaN and Infinity, which the schema's
+        # "maximum" lets through; no capacity can be computed from them.
+        ratio = data.get('allocation_ratio')
+        if isinstance(ratio, float) and not math.isfinite(ratio):
+            raise ValueError('allocation_ratio must be a finite number')
         inventory = inv_obj.Inventory(
             resource_provider=resource_provider,
             resource_class=resource_class, **data)
